@@ -50,7 +50,7 @@ theorem jobInv_wf_invoke {s s' : State} {t a : Nat} {parent : Option Nat} {c : C
     have hs' := congrArg Prod.fst (Option.some.inj hs)
     simp only at hs'
     subst hs'
-    refine jobInv_wf_addAct hw h t parent _ _ (by simp [Pc.callerOk]) (by simp [Pc.runningQ]) ?_ ?_ ?_ <;>
+    refine jobInv_wf_addAct hw h t parent _ _ (by simp [Pc.callerOk, JobKind.isErased]) (by simp [Pc.runningQ]) ?_ ?_ ?_ <;>
       (first | rfl | (split <;> (try split) <;> rfl)))
 
 theorem jobInv_wf_bodyEnd {s s' : State} {a : Nat} {o : Obs} (hw : WfInv s) (h : FullInv s) (hx : HeldExcl s.jobPQ) (hs : bodyEnd s a = some (s', o)) : WfInv s' ∧ FullInv s' := by
